@@ -13,6 +13,7 @@ import SnapraidVerif.Hash.Murmur3
 import SnapraidVerif.Hash.Spooky2
 import SnapraidVerif.Props.C12
 import SnapraidVerif.Array.Scan
+import SnapraidVerif.Array.Shortcut
 
 open SnapraidVerif SnapraidVerif.GF SnapraidVerif.Raid SnapraidVerif.Codec
 
@@ -186,6 +187,24 @@ def handle (toks : List String) : String :=
     (match c, r with
      | some c, some r => if Props.C12.allowed c r then "1" else "0"
      | _, _ => "bad-op")
+  | ["shortcut-sync", pre, spec] =>
+    -- shortcut-sync <prehash 0|1> <stripe;stripe;…>, stripe = st:match,… with st in b|c|p and match in 0|1
+    -- (does the data on disk hash to the recorded hash); reply: per stripe 1 = completed, 0 = stopped
+    let parseB (t : String) : Option (Shortcut.Blk Nat × Nat) := match t.splitOn ":" with
+      | [st, m] =>
+        let d := if m = "1" then 1 else 2
+        (match st with
+         | "b" => some ({ st := .blk, hash := 1 }, d)
+         | "c" => some ({ st := .chg, hash := 0 }, d)
+         | "p" => some ({ st := .rep, hash := 1 }, d)
+         | _ => none)
+      | _ => none
+    let stripes := (spec.splitOn ";").map (fun s => if s = "-" then some [] else (s.splitOn ",").mapM parseB)
+    (match stripes.mapM id with
+     | some ss =>
+       let res := if pre = "1" then Shortcut.syncWithPrehash id ss else ss.map (Shortcut.parityWritten id)
+       String.intercalate "" (res.map fun b => if b then "1" else "0")
+     | none => "bad-op")
   | "scan-classify" :: useInode :: rest =>
     -- scan-classify <0|1> K <known…> C <copy sources…> P <present…>; entry = pathhex:size:sec:nsec:inode
     let parseE (t : String) : Option Scan.FileId := match t.splitOn ":" with
